@@ -255,7 +255,7 @@ def run(rep, tier, seed):
     nk = [(('int',), ('i', 5)), (('bool',), ('b', True)), (('null',), ('null',)), (('str', 4), ('s', b'ab')), (('str', 12), ('s', b'hi')),
           (('str', 19), ('s', b'hi')), (('str', 22), ('s', b'hi')), (('str', 30), ('s', b'\x00h')), (('str', 23), ('s', b'170801120112Z')),
           (('oid',), ('oid', [1, 3, 6])), (('seq', [('r', None, ('int',))]), ('seq', [('i', 5)])),
-          (('set', [('r', None, ('int',))]), ('seq', [('i', 6)])), (('seqof', ('int',)), ('seqof', [('i', 1), ('i', 2)]))]
+          (('set', [('r', None, ('int',))]), ('seq', [('i', 6)])), (('seqof', ('int',)), ('of', [('i', 1), ('i', 2)]))]
     for (ka, va) in nk:
         for (kb, vb) in nk:
             if ka == kb:
